@@ -1,6 +1,6 @@
 """C04 — join: waits for all children, each output at its own position, zero inputs resolve at once."""
 from .. import families
-from . import joinlike
+from . import joinlike, flow
 
 PROPERTY = "C04"
 LEVEL = "other"
@@ -40,6 +40,7 @@ def run(ctx):
             joinlike.rule_pos(ctx, M, u, "C04.POS")
             joinlike.rule_result(ctx, M, u, "C04.POS")
             joinlike.rule_cnt(ctx, M, u, "C04.CNT")
+            flow.rule_integrity(ctx, u.bi, "C04.POS", u.where, ("Ready",), "the joined output")
             if u.container in ("array", "vec"):
                 joinlike.rule_zero(ctx, M, u, "C04.ZERO", ("Ready",))
         joinlike.rule_take_util(ctx, M, "C04.POS")
